@@ -45,6 +45,14 @@ def run(ctx):
         ctx.report.rules[-1].id = "R03.5(R14.1b)"
         c05.r05_3(ctx, rep, roles)
         ctx.report.rules[-1].id = "R03.4(R05.3)"
+        from . import c08
+        from ..core import wire
+        S_ = wire.impls(fx, wire.SER, "serialize")
+        L_ = wire.impls(fx, wire.SER, "serialized_len")
+        D_ = wire.impls(fx, wire.DES, "deserialize")
+        W_ = {ty: (f,) + tuple(wire.writer(fx, f, S_, L_)) for ty, f in sorted(S_.items())}
+        c08.r08_8(ctx, rep, S_, L_, D_, W_)
+        ctx.report.rules[-1].id = "R03.6(R08.8)"
     except ModelError as e:
         rep.rule("R03.x", "shared models")
         rep.violation("C03/" + e.key, e.msg, e.where)
